@@ -278,13 +278,32 @@ def norm_id(s: str) -> str:
     return re.sub(r"[^0-9a-z]", "", s.lower())
 
 
+def case_malformed(case: dict) -> bool:
+    """does the case contain, by construction, an operation that cannot be represented?"""
+    for p in case["paths"]:
+        if any(x != "ok" for x in p.get("params", [])):
+            return True
+        for it in p["items"]:
+            if it["method"].lower() not in HTTP:
+                continue
+            if it.get("node") == "null" or it.get("tags") == "null" or it.get("opid") == "":
+                return True
+            if any(x != "ok" for x in it.get("params", [])) or any(not ok for _, ok in it.get("resp", [])):
+                return True
+    return False
+
+
 def oracle(case: dict, obs: dict) -> list[str]:
     """C07 on the implementation's observation, from the property text: every (path, method) operation of the document
     is exactly one async method of the client of each of its tags (or of `default`); each tag client is a property of
     APIClient; names are identifiers, unique per client, follow the naming strategy; nothing is dropped when generation
     succeeded."""
     if obs["gen"] == "ERR":
-        return []  # failed visibly: nothing was silently dropped
+        # failed visibly: nothing was silently dropped — acceptable only if the document really contains an operation
+        # that cannot be represented (the malformed shapes are put there by construction)
+        if case_malformed(case):
+            return []
+        return [f"generation failed on a document whose operations are all well-formed: {obs.get('error')}"]
     fails: list[str] = []
     groups: dict[str, list] = {}
     for p in case["paths"]:
